@@ -28,6 +28,7 @@ import (
 //
 // Since 0.4.3
 func (st *SlimTrie) String() string {
+	verifPoint("String", 0, 0)
 
 	// empty SlimTrie
 	if st.inner.NodeTypeBM == nil {
